@@ -16,7 +16,8 @@ RULE = ('legal-biased random auctions played to completion through BiddingPhase.
         'and contract are compared with the model. distinct = distinct (dealer, vul, accepted history, offered call).')
 REQUIRED_COUNTERS = {'quick': ['illegal_offered', 'has_double', 'has_redouble', 'double_superseded'],
                      'thorough': ['illegal_offered', 'has_double', 'has_redouble', 'double_superseded', 'bfs_offer']}
-TRUSTED = ['numpy float vector of 0.0/1.0 read through BiddingPhase.available_bid']
+TRUSTED = ['the MiniPy semantics (Model/MiniPy.lean: value semantics, no aliasing) and the code translator (harness/translate_py.py), validated on every run by executing the translated program next to the real code (counters translated_*)',
+           'numpy float vector of 0.0/1.0 read through BiddingPhase.available_bid']
 ASSUMPTIONS = ['CPython list/dict semantics', 'numpy slice assignment on a 38-vector']
 
 
